@@ -7,11 +7,11 @@ open Sigc.Model Sigc.StepConn Sigc.StepHandles Sigc.StepTrack
 
 theorem WF.withT {s : St} (h : WF s) (T : List (Nat × Nat)) (hT : AllV (fun o : Nat => o < s.next) T) :
     WF { s with T := T } :=
-  ⟨h.impls, h.vars, hT, h.trks⟩
+  ⟨h.impls, h.vars, hT, h.trks, h.owners⟩
 
 theorem WF.withG {s : St} (h : WF s) (G : List (Nat × Handle)) (hG : AllV (fun h : Handle => h.trk < s.next) G) :
     WF { s with G := G } :=
-  ⟨h.impls, h.vars, h.objs, hG⟩
+  ⟨h.impls, h.vars, h.objs, hG, h.owners⟩
 
 /-- `mkFun`: the state stays well-formed, the allocator does not go back, and the functor built refers
     only to trackable identities below the allocator -/
@@ -80,25 +80,38 @@ theorem WF.mkFun {s s' : St} (h : WF s) {isVoid : Bool} {spec : FSpec} {fn : Fun
     · rename_i hd hg
       split at hm
       · cases hm
-      · simp at hm; obtain ⟨rfl, rfl⟩ := hm
-        refine ⟨h.withG _ (h.trks.aset g _ (h.trks.of_aget (v := hd) hg)), Nat.le_refl _, ?_⟩
-        intro t ht
-        simp only [Fun.tracks] at ht
-        split at ht
-        · simp at ht; subst ht; exact h.trks.of_aget (v := hd) hg
-        · cases ht
+      · split at hm
+        · cases hm
+        · simp at hm; obtain ⟨rfl, rfl⟩ := hm
+          refine ⟨h.withG _ (h.trks.aset g _ (h.trks.of_aget (v := hd) hg)), Nat.le_refl _, ?_⟩
+          intro t ht
+          simp only [Fun.tracks] at ht
+          split at ht
+          · simp at ht; subst ht; exact h.trks.of_aget (v := hd) hg
+          · cases ht
   | ownT fid t =>
     simp only [Model.mkFun] at hm
     split at hm
     · cases hm
     · simp at hm; obtain ⟨rfl, rfl⟩ := hm
-      refine ⟨(h.withT _ (h.objs.adel t)).frame _ rfl rfl rfl rfl rfl, Nat.le_refl _, by simp [Fun.tracks]⟩
+      refine ⟨(h.withT _ (h.objs.adel t)).frame _ rfl rfl rfl rfl rfl rfl, Nat.le_refl _, by simp [Fun.tracks]⟩
   | ownK fid k =>
     simp only [Model.mkFun] at hm
     split at hm
     · cases hm
     · simp [St.fresh] at hm; obtain ⟨rfl, rfl⟩ := hm
-      exact ⟨h.bump _ (Nat.le_succ _) rfl rfl rfl rfl, Nat.le_succ _, by simp [Fun.tracks]⟩
+      exact ⟨h.bump _ (Nat.le_succ _) rfl rfl rfl rfl rfl, Nat.le_succ _, by simp [Fun.tracks]⟩
+  | ownG fid g =>
+    simp only [Model.mkFun] at hm
+    split at hm
+    · cases hm
+    · split at hm
+      · cases hm
+      · split at hm
+        · cases hm
+        · simp [St.fresh] at hm; obtain ⟨rfl, rfl⟩ := hm
+          have h1 : WF { s with next := s.next + 1 } := h.bump _ (Nat.le_succ _) rfl rfl rfl rfl rfl
+          exact ⟨⟨h1.impls, h1.vars, h1.objs, h1.trks, h.owners.fresh g⟩, Nat.le_succ _, by simp [Fun.tracks]⟩
   | bad => simp [Model.mkFun] at hm
 
 /-- the slot made from a freshly built functor -/
@@ -120,13 +133,13 @@ macro "wf_subst" h:ident : tactic => `(tactic| (
 /-- finish such a branch with `hw : WF s₁` (up to a frame rule) -/
 macro "wf_done" h:ident hw:term : tactic => `(tactic| (
   wf_subst $h
-  first | exact $hw | exact WF.frame $hw _ rfl rfl rfl rfl rfl))
+  first | exact $hw | exact WF.frame $hw _ rfl rfl rfl rfl rfl rfl))
 
 /-! ### trackables -/
 
 theorem WF.allocT {s : St} (h : WF s) (t : Nat) :
     WF { s with next := s.next + 1, T := aset s.T t s.next } :=
-  have h1 : WF { s with next := s.next + 1 } := h.bump _ (Nat.le_succ _) rfl rfl rfl rfl
+  have h1 : WF { s with next := s.next + 1 } := h.bump _ (Nat.le_succ _) rfl rfl rfl rfl rfl
   h1.withT _ (h1.objs.aset t s.next (Nat.lt_succ_self _))
 
 theorem stepSimple_WF_T (s s' : St) (r : String) (op : Op) (hw : WF s) (h : stepSimple s op = some (s', r))
@@ -286,8 +299,8 @@ theorem stepSimple_WF_S (s s' : St) (r : String) (op : Op) (hw : WF s) (h : step
 /-- the allocator moves on and the handle table is replaced -/
 theorem WF.bumpG {s : St} (h : WF s) (n' : Nat) (hn : s.next ≤ n') (G : List (Nat × Handle))
     (hG : AllV (fun h : Handle => h.trk < n') G) : WF { s with next := n', G := G } :=
-  have h1 : WF { s with next := n' } := h.bump _ hn rfl rfl rfl rfl
-  ⟨h1.impls, h1.vars, h1.objs, hG⟩
+  have h1 : WF { s with next := n' } := h.bump _ hn rfl rfl rfl rfl rfl
+  ⟨h1.impls, h1.vars, h1.objs, hG, h1.owners⟩
 
 theorem WF.trksUp {s : St} (h : WF s) {n' : Nat} (hn : s.next ≤ n') : AllV (fun h : Handle => h.trk < n') s.G :=
   h.trks.imp (fun _ hv => Nat.lt_of_lt_of_le hv hn)
@@ -379,39 +392,43 @@ theorem stepSimple_WF_G (s s' : St) (r : String) (op : Op) (hw : WF s) (h : step
       · split at h
         · wf_done h hw
         · split at h
+          · wf_done h hw
           · split at h
-            · wf_done h hw
             · split at h
               · wf_done h hw
-              · rename_i s1 im heq
-                have h1 := hw.ensureImpl heq
-                have hle := ensureImpl_next_le heq
-                split at h
-                · wf_done h h1
-                · wf_subst h
-                  apply WF.gcOpt
-                  refine h1.withG _ (h1.trks.aset j _ ?_)
-                  have := hw.trk hj
-                  show d.trk < _
-                  omega
-          · split at h
-            · wf_done h hw
-            · wf_subst h
-              apply WF.invIf
-              apply WF.gcOpt
-              refine hw.withG _ ((hw.trks.aset j _ ?_).aset i _ ?_)
-              · exact hw.trk (hd := d) hj
-              · exact hw.trk (hd := hd) hi
+              · split at h
+                · wf_done h hw
+                · rename_i s1 im heq
+                  have h1 := hw.ensureImpl heq
+                  have hle := ensureImpl_next_le heq
+                  split at h
+                  · wf_done h h1
+                  · wf_subst h
+                    apply WF.gcOpt
+                    refine h1.withG _ (h1.trks.aset j _ ?_)
+                    have := hw.trk hj
+                    show d.trk < _
+                    omega
+            · split at h
+              · wf_done h hw
+              · wf_subst h
+                apply WF.invIf
+                apply WF.gcOpt
+                refine hw.withG _ ((hw.trks.aset j _ ?_).aset i _ ?_)
+                · exact hw.trk (hd := d) hj
+                · exact hw.trk (hd := hd) hi
     · wf_done h hw
   case delG i =>
     split at h
     · wf_done h hw
     · split at h
       · wf_done h hw
-      · wf_subst h
-        apply WF.gcOpt
-        have h1 := hw.invIf ‹Handle›.fl.isTrackable ‹Handle›.trk
-        exact h1.withG _ (h1.trks.adel i)
+      · split at h
+        · wf_done h hw
+        · wf_subst h
+          apply WF.gcOpt
+          have h1 := hw.invIf ‹Handle›.fl.isTrackable ‹Handle›.trk
+          exact h1.withG _ (h1.trks.adel i)
 
 /-! ### connecting, clearing, blocking -/
 
